@@ -285,7 +285,7 @@ impl VirtualSign<'_> {
                 self.address.0, width, height, kind
             );
 
-            self.sign_type = SignType::from_bytes(data).ok();
+            self.sign_type = SignType::from_bytes(data).ok().filter(|sign_type| sign_type.to_bytes() == data);
             match self.sign_type {
                 Some(sign_type) => info!("Vsign {:04X} matches known type: {:?}", self.address.0, sign_type),
                 None => warn!("Please report unknown configuration {:?}", data),
